@@ -1,7 +1,7 @@
 (* C13: converting positions to a trace set and evaluating it at the same positions returns the fitted values;
    the default grid is xmin, xmin+1, ... with floor(xmax-xmin+1) columns. *)
 From Coq Require Import QArith Qabs Qround Qminmax Lqa List Bool Lia ZArith.
-From PV Require Import Lib.WLS C13.LinAlg C13.LinAlgProofs C13.Model C13.FitProofs.
+From PV Require Import Lib.WLS C13.LinAlg C13.LinAlgProofs Generated.Trace C13.Model C13.FitProofs C13.FitProofs2 C13.FitGenProofs.
 Import ListNotations.
 Open Scope Q_scope.
 
@@ -32,7 +32,7 @@ Proof. apply repeat_length. Qed.
 
 (* evaluating the full coefficient vector with the ncoeff-term basis reproduces the fitted values *)
 Lemma func_fit_eval f xv y w ncoeff res yfit :
-  func_fit f xv y w ncoeff (all_true ncoeff) [] None = Some (res, yfit) ->
+  func_fit_ref f xv y w ncoeff (all_true ncoeff) [] None = Some (res, yfit) ->
   f <> ChebSplit -> (1 <= ncoeff)%nat ->
   veq (map (fun x => dot (basis_row f ncoeff x) res) xv) yfit.
 Proof.
@@ -52,7 +52,7 @@ Proof.
     + rewrite dot_zeros_r. ring.
     + rewrite basis_row_length. symmetry. exact Lr.
   - (* no or one good point *)
-    unfold func_fit in H. unfold ngood_of in Hg.
+    unfold func_fit_ref in H. unfold ngood_of in Hg.
     destruct (length (filter (fun p => Qlt_bool 0 (snd p)) (combine y w))) as [|[|k]] eqn:E; try lia.
     + inversion H; subst. apply map_all_zero. intros x. apply dot_zeros_r.
     + inversion H; subst. apply map_all_const. intros x.
@@ -85,6 +85,17 @@ Proof.
   f_equal. apply IH; lia.
 Qed.
 
+(* the jump handed to xnorm while fitting is the jump handed to xnorm while evaluating (ignore_jump = False):
+   breaks if __init__ or xy pass a different jump argument, or if do_jump / has_jump change *)
+Lemma jump_args_consistent j : xy_jump j false = fit_jump j.
+Proof. destruct j; reflexivity. Qed.
+
+(* xnorm assembled from the source's expressions = the reference form used by the checkers *)
+Lemma xnorm_is_spec xmin xmax j x : xnorm xmin xmax j x = xnorm_spec xmin xmax j x.
+Proof. destruct j as [[[lo hi] val]|]; reflexivity. Qed.
+Lemma ts_nx_is_spec t : ts_nx t = ts_nx_spec t.
+Proof. reflexivity. Qed.
+
 (* traceset_fit_eval_consistent: xy (fit xpos ypos) xpos = (xpos, yfit), for every trace, with and without jump
    (the jump j is whatever the trace set was built with) *)
 Theorem traceset_fit_eval_consistent f ncoeff oxmin oxmax j xpos ypos ivar inmask t yfit :
@@ -104,7 +115,8 @@ Proof.
   rewrite <- (combine4_fst xpos ypos ivar inmask L1 L2 L3) at 1. fold T.
   apply (opt_all_map_eval F) with (l := l); [exact E|].
   intros [[[xr yr] wr] mr] res yf _ HF. simpl. unfold ts_eval_row. simpl.
-  unfold F in HF. pose proof (func_fit_eval _ _ _ _ _ _ _ HF Hf Hn) as HE. rewrite map_map in HE. exact HE.
+  unfold F in HF. rewrite func_fit_eq_ref in HF. rewrite jump_args_consistent.
+  pose proof (func_fit_eval _ _ _ _ _ _ _ HF Hf Hn) as HE. rewrite map_map in HE. exact HE.
 Qed.
 
 (* ------------------------------------------------------------------ default grid *)
@@ -130,10 +142,10 @@ Proof.
       subst. reflexivity.
 Qed.
 
-(* the jump fraction is clamped to [0, 1] *)
-Lemma clamp01_range q : 0 <= clamp01 q <= 1.
+(* the jump fraction (expression from the source) is clamped to [0, 1] *)
+Lemma jfrac_range x lo hi : 0 <= g_jfrac x lo hi <= 1.
 Proof.
-  unfold clamp01. split.
-  - apply Q.min_glb; [apply Q.le_max_r | lra].
+  unfold g_jfrac. split.
+  - apply Q.min_glb; [apply Q.le_max_r | unfold Qle; simpl; lia].
   - apply Q.le_min_r.
 Qed.
